@@ -34,15 +34,57 @@ def cases(tier, seed):
         yield ('fa', idx, seed)
     for name in signals.fb_names(b['fb_sizes']):
         yield ('fb', name, seed)
+    # larger scope: long records whose extrema are clustered at one end (the re-padding loop has to run hundreds of
+    # times), or that hold many hundreds of extrema (block sizes, counters)
+    for n in (300, 600, 1200, 2600):
+        for where in ('left', 'right'):
+            yield ('cluster', (n, where), seed)
+    for n in (700, 2100):
+        yield ('dense', (n,), seed)
+    # tiny-amplitude copies (x 2^-30): absolute guards inside the refinement / padding would show here
+    for idx in signals.fa_indices(3, 5, min(b['max_len'], 7)):
+        yield ('fa-tiny', idx, seed)
+    # custom np.pad options for the magnitudes, on short and on extrema-rich records
+    for name in signals.fb_names((32,))[:10]:
+        yield ('padopts', ('fb', name), seed)
+    for n in (700, 2100):
+        yield ('padopts', ('dense', n), seed)
+    # integer-typed copies of the short sequences (levels 0, 1, 2 stored as int64 / int16)
+    for idx in signals.fa_indices(3, 3, min(b['max_len'], 7)):
+        yield ('fa-int', idx, seed)
 
 
 def decode_case(c):
     return (c[0], tuple(c[1]), c[2])
 
 
+def signature(kind, case):
+    return kind
+
+
 def signal_of(case):
     if case[0] == 'fa':
         return signals.fa_signal(case[1], 3, case[2])
+    if case[0] == 'fa-int':
+        return np.array(case[1], dtype=np.int64 if case[2] % 2 == 0 else np.int16)
+    if case[0] == 'fa-tiny':
+        return signals.fa_signal(case[1], 3, case[2]) * 2.0 ** -30
+    if case[0] == 'padopts':
+        kind, what = case[1]
+        if kind == 'fb':
+            return signals.fb_signal(what, case[2])
+        return signal_of(('dense', (what,), case[2]))
+    if case[0] == 'cluster':
+        n, where = case[1]
+        x = np.linspace(0.0, 3.0, n)
+        bump = np.array([0.0, 0.9, -0.4, 1.1, -0.5, 0.8, -0.3, 0.2])
+        pos = 2 if where == 'left' else n - 2 - len(bump)
+        x[pos:pos + len(bump)] += bump
+        return x
+    if case[0] == 'dense':
+        n = case[1][0]
+        t = np.arange(n)
+        return np.where(t % 2 == 0, 1.0, -1.0) * (1 + 0.3 * np.sin(t / 37.0)) + 0.001 * t
     return signals.fb_signal(case[1], case[2])
 
 
@@ -83,10 +125,15 @@ def ref_pad(L, M, p, N):
             return np.array(L), np.array(M)
 
 
-def close(a, b, tol=1e-9):
+def close(a, b, tol=1e-9, mag=False):
+    """Locations are compared to 1e-9 absolute (they are sample indices); magnitudes relative to their own size, so
+    that tiny- and huge-amplitude signals are judged as strictly as unit ones."""
     a = np.asarray(a, dtype=float)
     b = np.asarray(b, dtype=float)
-    return a.shape == b.shape and np.allclose(a, b, rtol=tol, atol=tol)
+    if a.shape != b.shape:
+        return False
+    atol = tol * (float(np.max(np.abs(b))) if (mag and b.size) else 1.0)
+    return np.allclose(a, b, rtol=tol, atol=atol)
 
 
 def check_extrema_result(x, L0, M0, locs, mags, pad, parabolic):
@@ -102,7 +149,7 @@ def check_extrema_result(x, L0, M0, locs, mags, pad, parabolic):
     if locs.shape != mags.shape or locs.ndim != 1:
         return ('extrema:shape', 'locs %r mags %r' % (locs.shape, mags.shape))
     if pad == 0:
-        if not (close(locs, L0) and close(mags, M0)):
+        if not (close(locs, L0) and close(mags, M0, mag=True)):
             return ('extrema:interior', 'unpadded result differs from the strict extrema')
         if not parabolic and not (np.array_equal(locs, L0) and np.array_equal(mags, M0)):
             return ('extrema:interior-exact', 'unrefined extrema must be bit-equal')
@@ -115,7 +162,7 @@ def check_extrema_result(x, L0, M0, locs, mags, pad, parabolic):
         return ('extrema:count', '%d padded entries for pad %d and %d extrema' % (len(locs), p, n))
     off = extra // 2
     blockL, blockM = locs[off:off + n], mags[off:off + n]
-    if not (close(blockL, L0) and close(blockM, M0)):
+    if not (close(blockL, L0) and close(blockM, M0, mag=True)):
         return ('extrema:interior', 'interior block altered: %s vs %s' % (blockL.tolist(), L0.tolist()))
     if not parabolic and not (np.array_equal(blockL, L0) and np.array_equal(blockM, M0)):
         return ('extrema:interior-exact', 'unrefined extrema must be bit-equal')
@@ -127,7 +174,7 @@ def check_extrema_result(x, L0, M0, locs, mags, pad, parabolic):
         # reflect the block as returned (already shown to equal the reference extrema to 1e-9): whether another padding
         # round is needed is decided at exactly 0 / N, so the reference must see the same last-bit values
         RL, RM = ref_pad(blockL, blockM, p, N)
-        if not (close(locs, RL) and close(mags, RM)):
+        if not (close(locs, RL) and close(mags, RM, mag=True)):
             return ('extrema:mirror', 'padding differs from odd reflection: %s vs %s' % (locs.tolist(), RL.tolist()))
     else:
         # first ring must still be the mirror image about the outermost extrema
@@ -146,21 +193,61 @@ def ref_envelope(locs, mags, method, N):
     return interp.PchipInterpolator(locs, mags)(t)
 
 
+PADOPTS = [{'mode': 'mean'}, {'mode': 'maximum', 'stat_length': 2}, {'mode': 'edge'}, {'mode': 'median'}, {'mode': 'mean', 'stat_length': 300}]
+
+
+def check_padopts(case):
+    """Custom mag_pad_opts: 'padding is carried out using numpy.pad' on the whole vector of extrema."""
+    from emd.sift import get_padded_extrema
+    x = np.asarray(signal_of(case), dtype=float)
+    N = len(x)
+    viols = []
+    trans = 0
+    for xmode in ('peaks', 'troughs'):
+        L0, M0 = ref_extrema(x, xmode, False)
+        if len(L0) < 2:
+            continue
+        for pad in (1, 3):
+            for po in PADOPTS:
+                opts = dict(po)
+                mode = opts.pop('mode')
+                p = min(pad, len(L0))
+                RL, RM = L0.copy(), M0.copy()
+                while True:
+                    RL = np.pad(RL, p, 'reflect', reflect_type='odd')
+                    RM = np.pad(RM, p, mode, **opts)
+                    if not (RL.max() < N or RL.min() >= 0):
+                        break
+                try:
+                    locs, mags = get_padded_extrema(x.copy(), pad_width=pad, mode=xmode, mag_pad_opts=dict(po))
+                except Exception as e:
+                    viols.append(('padopts:raise:%s' % type(e).__name__, '%s%r mode=%s pad=%d mag_pad_opts=%r raised %r' % (case[1][0], case[1][1], xmode, pad, po, e)))
+                    continue
+                trans += 1
+                if not (close(locs, RL) and close(mags, RM, mag=True)):
+                    viols.append(('padopts:value', '%s%r (%d extrema) mode=%s pad=%d mag_pad_opts=%r: padded magnitudes differ from numpy.pad over the whole vector' % (
+                        case[1][0], case[1][1], len(L0), xmode, pad, po)))
+    return Outcome(cls='padopts', transitions=trans, viols=viols, nontrivial=True)
+
+
 def check_case(case):
     from emd.sift import get_padded_extrema, interp_envelope
-    x = signal_of(case)
+    if case[0] == 'padopts':
+        return check_padopts(case)
+    x_in = signal_of(case)
+    x = np.asarray(x_in, dtype=float)       # the reference works on the values; the library gets the array as typed
     N = len(x)
     viols = []
     trans = 0
     nontriv = False
-    d = 'x=%s' % (x.tolist() if N <= 12 else 'F_B%r' % (case[1],))
+    d = 'x=%s%s' % (x.tolist() if N <= 12 else '%s%r' % (case[0], case[1]), '' if x_in.dtype == float else ' (dtype %s)' % x_in.dtype)
     for parabolic in (False, True):
         for emode, xmode in MODES:
             L0, M0 = ref_extrema(x, xmode, parabolic)
             nontriv = nontriv or len(L0) >= 2
             for pad in range(0, 6):
                 tag = '%s mode=%s pad_width=%d parabolic=%s' % (d, xmode, pad, parabolic)
-                xin = x.copy()
+                xin = x_in.copy()
                 try:
                     locs, mags = get_padded_extrema(xin, pad_width=pad, mode=xmode, parabolic_extrema=parabolic)
                 except Exception as e:
@@ -177,7 +264,7 @@ def check_case(case):
                     tag2 = '%s interp=%s' % (tag, method)
                     opts = {'pad_width': pad, 'parabolic_extrema': parabolic}
                     try:
-                        res = interp_envelope(x.copy(), mode=emode, interp_method=method, extrema_opts=opts, ret_extrema=True)
+                        res = interp_envelope(x_in.copy(), mode=emode, interp_method=method, extrema_opts=opts, ret_extrema=True)
                     except Exception as e:
                         viols.append(('envelope:raise:%s' % type(e).__name__ + (':parabolic' if parabolic else ''), '%s raised %r' % (tag2, e)))
                         continue
@@ -191,14 +278,14 @@ def check_case(case):
                         continue
                     env, (el, em) = res
                     env = np.asarray(env, dtype=float)
-                    if not (close(el, locs) and close(em, mags)):
+                    if not (close(el, locs) and close(em, mags, mag=True)):
                         viols.append(('envelope:extrema', '%s: ret_extrema differs from get_padded_extrema' % tag2))
                         continue
                     if env.shape != (N,):
                         viols.append(('envelope:length', '%s: envelope shape %r for %d samples' % (tag2, env.shape, N)))
                         continue
                     want = ref_envelope(np.asarray(locs, dtype=float), np.asarray(mags, dtype=float), method, N)
-                    scale = 1 + np.max(np.abs(M0))
+                    scale = np.max(np.abs(M0))
                     err = np.max(np.abs(env - want))
                     if not err <= 1e-10 * scale:
                         viols.append(('envelope:grid' + (':parabolic' if parabolic else ''),
@@ -223,6 +310,6 @@ def snippet(case, kind):
 
 
 def nonvacuity(rep, ctx):
-    if not {'few-extrema', 'extrema'} <= set(rep.classes):
+    if not {'few-extrema', 'extrema', 'padopts'} <= set(rep.classes):
         return ['vacuous: outcome classes %r' % dict(rep.classes)]
     return []
